@@ -45,7 +45,7 @@ def run(prop, tier, seed, replay=None):
         env["XDV_DUMP"] = "1"
         for fam in ("c01", "c03"):
             jobs.append((S.worker_argv(mgr, fam, seed * 1000 + 7, n_hist, os.path.join(sc, "c20_%s_%s_%d" % (fam, b, hs)), ["--maxops", "18"]), env))
-        for fam in ("c04", "c11", "c12"):
+        for fam in ("c04", "c06", "c11", "c12"):
             jobs.append((S.worker_argv(ex, fam, seed * 1000 + 7, n_expr, os.path.join(sc, "c20_%s_%s_%d" % (fam, b, hs)), ["--fixed"]), env))
     C.run_jobs(jobs)
 
@@ -98,7 +98,7 @@ def run(prop, tier, seed, replay=None):
                                       "ops": S.history_ops(mgr, pref, x["hist"])})
     # expression-level transcripts: printed text, oracle verdicts
     expr_cases = 0
-    for fam in ("c04", "c11", "c12"):
+    for fam in ("c04", "c06", "c11", "c12"):
         def load(b, hs):
             pref = os.path.join(sc, "c20_%s_%s_%d" % (fam, b, hs))
             res = json.load(open(pref + ".res.json"))
@@ -134,7 +134,7 @@ def run(prop, tier, seed, replay=None):
                                   "first_text_difference": None if k is None else [t0[k], t1[k]],
                                   "oracle_verdicts": [f0[:3], f1[:3]]})
         for f in r0["failures"]:
-            if f["property"] in ("C04", "C11", "C12"):
+            if f["property"] in ("C04", "C06", "C11", "C12"):
                 diverging.append({"family": fam, "oracle_failure_in_base_configuration": f})
 
     if known_d1:
